@@ -47,7 +47,7 @@ func buildCLI(dir string) (string, string) {
 }
 
 func runC20(res *Result, tier string, seed int64, replay string) {
-	res.Rule = "the built gomjml binary, one fresh process per case: documents {valid, carousel (random id), head attributes, invalid-attribute, unparsable, empty, missing path, directory} × output {-o file, -s, neither, both, -o into a missing directory} × --debug × --cache × --cache-ttl {absent, 1ns, 0s, -1s, 10m, 2562047h} × --cache-cleanup-interval {absent, 0s, 1ns, 1m, -5s}; observed exit code / stdout / stderr / output-file bytes (pre-existing file holds a sentinel) vs the Lean decision model (driver `cli`) applied to the in-process mjml.Render result with the corresponding options. Non-trivial = case that reaches the library; distinct by case tuple"
+	res.Rule = "the built gomjml binary, one fresh process per case: documents {valid, carousel (random id), head attributes, invalid-attribute, unparsable, empty, missing path, directory} × output {-o file, -s, neither, both, -o into a missing directory} × --debug × --cache × --cache-ttl {absent, 1ns, 0s, -1s, 10m, 2562047h} × --cache-cleanup-interval {absent, 0s, 1ns, 1m, -5s}; observed exit code / stdout / stderr / output-file bytes (pre-existing file holds a sentinel) vs the Lean decision model (driver `cli`) applied to the in-process mjml.Render result with the corresponding options. + path cases (relative paths, '..' through real and symlinked directories, trailing separators, missing components, symlinked files, absolute paths; for the input and for -o) judged against what os.ReadFile / os.WriteFile do with the same strings. Non-trivial = case that reaches the library; distinct by case tuple"
 	dir, err := os.MkdirTemp("", "verif-c20-")
 	if err != nil {
 		res.Disagree(Violation{Sig: "tmpdir", What: err.Error()})
@@ -263,6 +263,101 @@ func runC20(res *Result, tier string, seed int64, replay string) {
 				Input: map[string]interface{}{"args": args[2:], "doc": c.doc, "source": content, "case": c.String()}})
 		}
 	})
+	c20Paths(res, bin, dir)
+}
+
+// c20Paths: the file named on the command line is the file the operating system resolves — relative paths, "..", symlinked
+// directories, a trailing separator, a component that does not exist — for the input and for -o; the expectation comes from
+// what os.ReadFile / os.WriteFile do with the very same path string in the same directory.
+func c20Paths(res *Result, bin, dir string) {
+	docX := `<mjml><mj-body><mj-section><mj-column><mj-text>document X (shared)</mj-text></mj-column></mj-section></mj-body></mjml>`
+	docY := `<mjml><mj-body><mj-section><mj-column><mj-text>document Y (top)</mj-text></mj-column></mj-section></mj-body></mjml>`
+	type pc struct {
+		name string
+		in   string
+		out  string // "" = stdout
+	}
+	cases := []pc{
+		{"plain", "in.mjml", "out.html"}, {"dot-slash", "./in.mjml", "./out.html"}, {"double-slash", ".//in.mjml", "sub//out.html"},
+		{"dotdot-real-dir", "sub/../in.mjml", "sub/../out.html"}, {"out-through-symlink", "in.mjml", "tpl/../out.html"},
+		{"in-through-symlink", "tpl/../in.mjml", ""}, {"in-through-symlink-to-file", "tpl/../in.mjml", "out.html"},
+		{"in-trailing-separator", "in.mjml/", "out.html"}, {"in-missing-component", "missing/../in.mjml", "out.html"},
+		{"out-trailing-separator", "in.mjml", "out.html/"}, {"out-missing-component", "in.mjml", "missing/../out.html"},
+		{"in-symlinked-file", "link.mjml", "out.html"}, {"absolute", "ABS/in.mjml", "ABS/sub/out.html"},
+	}
+	for i, c := range cases {
+		wd := filepath.Join(dir, fmt.Sprintf("path%d", i))
+		os.MkdirAll(filepath.Join(wd, "shared", "templates"), 0o755)
+		os.MkdirAll(filepath.Join(wd, "sub"), 0o755)
+		os.WriteFile(filepath.Join(wd, "in.mjml"), []byte(docY), 0o644)
+		os.WriteFile(filepath.Join(wd, "shared", "in.mjml"), []byte(docX), 0o644)
+		os.Symlink(filepath.Join("shared", "templates"), filepath.Join(wd, "tpl"))
+		os.Symlink(filepath.Join("shared", "in.mjml"), filepath.Join(wd, "link.mjml"))
+		in := strings.ReplaceAll(c.in, "ABS", wd)
+		out := strings.ReplaceAll(c.out, "ABS", wd)
+		// what the operating system makes of the very same strings, from the same directory
+		old, _ := os.Getwd()
+		os.Chdir(wd)
+		srcBytes, rerr := os.ReadFile(in)
+		var werr error
+		wrote := ""
+		if out != "" {
+			probe := []byte("probe")
+			if werr = os.WriteFile(out, probe, 0o644); werr == nil {
+				// find the file the OS wrote, then remove it again
+				filepath.Walk(wd, func(p string, fi os.FileInfo, _ error) error {
+					if fi != nil && fi.Mode().IsRegular() {
+						if b, _ := os.ReadFile(p); string(b) == "probe" {
+							wrote = p
+						}
+					}
+					return nil
+				})
+				os.Remove(wrote)
+			}
+		}
+		os.Chdir(old)
+		want, wantErr := "", rerr != nil
+		if rerr == nil {
+			want, _ = mjml.Render(string(srcBytes))
+		}
+		args := []string{"compile", in}
+		if out != "" {
+			args = append(args, "-o", out)
+		}
+		cmd := exec.Command(bin, args...)
+		cmd.Dir = wd
+		var so, se bytes.Buffer
+		cmd.Stdout, cmd.Stderr = &so, &se
+		runErr := cmd.Run()
+		res.Case("path|"+c.name, true)
+		res.Count("paths")
+		in2 := map[string]interface{}{"case": "path/" + c.name, "args": args, "layout": "in.mjml (Y), shared/in.mjml (X), sub/, tpl -> shared/templates, link.mjml -> shared/in.mjml"}
+		fail := func(sig, what string) {
+			res.Violate(Violation{Sig: sig + "|path/" + c.name, Kind: "config", What: what, Input: in2})
+		}
+		switch {
+		case wantErr || (out != "" && werr != nil):
+			if runErr == nil {
+				fail("exit-code", fmt.Sprintf("the operating system refuses this path (read: %v, write: %v) but the command exits 0", rerr, werr))
+			} else if se.Len() == 0 {
+				fail("stderr", "the command fails without a message on standard error")
+			}
+		case runErr != nil:
+			fail("exit-code", fmt.Sprintf("the operating system accepts these paths but the command fails: %v %s", runErr, short(se.String(), 200)))
+		case out == "":
+			if alphaIDs(so.String()) != alphaIDs(want) {
+				fail("stdout-bytes", "standard output is not the compilation of the file the path names")
+			}
+		default:
+			got, gerr := os.ReadFile(wrote)
+			if wrote == "" || gerr != nil {
+				fail("file-bytes", "the file the path names was not written")
+			} else if alphaIDs(string(got)) != alphaIDs(want) {
+				fail("file-bytes", "the output file does not hold the compilation of the file the input path names")
+			}
+		}
+	}
 }
 
 func init() { register("C20", runC20) }
